@@ -49,6 +49,15 @@ fn delay_for(cfg: &Cfg, attempt: usize) -> u64 {
 }
 
 pub fn gen(rng: &mut Prng) -> Cfg {
+    // rarely a flood: well over a thousand parallel attempts whose results all arrive while the
+    // caller is not being polled (more than any bounded result buffer holds); the successes are the
+    // last to report
+    if rng.chance(0.004) {
+        let max = *rng.pick(&[1100usize, 1300]);
+        let n_ok = rng.range(1, 150) as usize;
+        let script = (0..max).map(|k| (Lat::Us(2000), k >= max - n_ok)).collect();
+        return Cfg { max, delay: Delay::NoDelay, reqs: vec![(0, script)], stall: Some((0, 1000, *rng.pick(&[4000u64, 9000]))), busy_fails: false, warm_us: 0, blackout: None };
+    }
     // now and then a wide fan-out: more attempts than any small internal buffer would hold
     let wide = rng.chance(0.05);
     // "as many hedges as it takes": an extreme but valid attempt limit (one of the first few attempts succeeds)
